@@ -80,7 +80,8 @@ def run_unit(ctx):
     MW, ME, SCHED, FRESH = 3, 2, "random", dt.datetime(2020, 1, 1)
     retry_kind = ctx.choose(2, "retry")
     RETRY_IN = (lambda f: f) if retry_kind == 0 else 3
-    COERCED = object()
+    def COERCED(f):          # what create_retry returns: a decorator (callable), identified by identity below
+        return f
     PWVS_PLAN, PWVS_OUT = Plan("after-registry"), ("redirected",)
     TP_PLAN, TP_OUT = Plan("after-transform"), ("transformed-out",)
     RESULT = object()
@@ -151,6 +152,10 @@ def run_unit(ctx):
                                         transform_physical=(transform_physical if has_tp else None), stale_check_max_workers=scmw))
     names = [e[0] for e in log]
     retry_eff = RETRY_IN if retry_kind == 0 else COERCED
+    callee_failed = any((l.startswith("stale-check=") or l.startswith("run=")) and not l.endswith("=0") for l in ctx.labels())
+    ALL = ["C02", "C06", "C07", "C09", "C10", "C13", "C14", "C15"]
+    ctx.check("run-raises-only-what-a-callee-raised(valid-arguments:nothing-of-its-own)", bool(kind == "ret" or callee_failed), props=ALL,
+              info=repr(val) if kind == "raise" else "")
 
     # ---- C13 frame ----
     first_plan_use = next((e for e in log if any(x is caller_plan for x in e[1:])), None)
